@@ -58,6 +58,40 @@ def carries_line(e, fi):
 _IDX = []
 
 
+def _straight_value(fn, aug):
+    """the increment expression with the straight-line local assignments in front of it substituted back
+    (`breaks = t.value.count('\n'); breaks = breaks + ...; lineno += breaks`)"""
+    import copy
+
+    env = {}
+
+    class S(ast.NodeTransformer):
+        def visit_Name(self, x):
+            if isinstance(x.ctx, ast.Load) and x.id in env:
+                return copy.deepcopy(env[x.id])
+            return x
+
+    def walk(stmts):
+        for st in stmts:
+            if any(x is aug for x in ast.walk(st)):
+                if st is aug:
+                    return S().visit(copy.deepcopy(aug.value))
+                for f_ in ("body", "orelse", "finalbody"):
+                    v = getattr(st, f_, None)
+                    if isinstance(v, list) and any(x is aug for b in v for x in ast.walk(b)):
+                        return walk(v)
+                return S().visit(copy.deepcopy(aug.value))
+            if isinstance(st, ast.Assign) and len(st.targets) == 1 and isinstance(st.targets[0], ast.Name):
+                env[st.targets[0].id] = S().visit(copy.deepcopy(st.value))
+            else:
+                for x in ast.walk(st):
+                    if isinstance(x, ast.Name) and isinstance(x.ctx, ast.Store):
+                        env.pop(x.id, None)
+        return aug.value
+
+    return walk(fn.body)
+
+
 def newline_increment(rule):
     """(form, expr text) of the `lexer.lineno += ...` in a token function, or (None, None)"""
     fn = rule.node
@@ -66,7 +100,9 @@ def newline_increment(rule):
     t = fn.args.args[-1].arg
     for n in ast.walk(fn):
         if isinstance(n, ast.AugAssign) and isinstance(n.op, ast.Add) and isinstance(n.target, ast.Attribute) and n.target.attr == "lineno":
-            s = K.src(n.value).replace(" ", "").replace('"', "'")
+            s = K.src(_straight_value(fn, n)).replace(" ", "").replace('"', "'")
+            if s.startswith("(") and s.endswith(")") and s.count("(") == s.count(")") and "count" in s:
+                s = s[1:-1] if not s[1:-1].startswith("(") else s
             v = "%s.value" % t
             # the count must be taken on the raw token text: no rewrite of <t>.value may reach the increment
             from engine.cfg import CFG
